@@ -137,7 +137,7 @@ def size_fields(ctx, rep=None):
         changed = False
         for n in sorted(sz):
             def leaf(t, sz=sz):
-                return _size_leaf(t, sz)
+                return _size_leaf(t, sz, cad)
             if not all(unsigned_leafs_ok(v, leaf) for v in writes[n]):
                 sz.discard(n)
                 changed = True
@@ -147,12 +147,24 @@ def size_fields(ctx, rep=None):
 
 def size_leaf_for(ctx):
     sz = size_fields(ctx)
-    return lambda t: _size_leaf(t, sz)
+    return lambda t: _size_leaf(t, sz, ctx.cad)
 
 
-def _size_leaf(t, sz):
+def _len_like_local(cad, path):
+    """a private method of the formatter / metric value taking only &self and returning usize: a size hint or element
+    count whose own arithmetic is discharged at its own sites"""
+    for b in cad.all_bodies:
+        if strip_generics(b.path) == path and b.impl_self and b.impl_trait is None and b.locals[0] == 'usize' and b.arg_count == 1 \
+                and type_head(b.impl_self) in (FORMATTER, 'cadence::builder::MetricValue') and type_head(b.locals[1]) == type_head(b.impl_self):
+            return True
+    return False
+
+
+def _size_leaf(t, sz, cad=None):
     """in-memory lengths, size-hint fields (usize sums of lengths), value counts"""
-    if t[0] == 'call' and isinstance(t[1], str) and (t[1].endswith('::len') or t[1].endswith('MetricValue::count') or t[1].endswith('_size_hint') or t[1].endswith('::size_hint') or t[1].endswith('::capacity')):
+    if t[0] == 'call' and isinstance(t[1], str) and (t[1].endswith('::len') or t[1].endswith('::capacity')):
+        return True
+    if t[0] == 'call' and isinstance(t[1], str) and cad is not None and _len_like_local(cad, t[1]):
         return True
     if t[0] == 'field' or t[0] == 'load':
         x = t[1] if t[0] == 'load' else t
@@ -255,9 +267,15 @@ def check(ctx, rep):
             rep.bad('SITE', key, b.where(bi), 'unclassified panic-capable construct: %s on %s' % (kind, fmt(term)[:120]))
             undischarged.setdefault(b.path, []).append(kind)
     # D3: critical sections free of undischarged sites
+    # what runs while a sink mutex is held: the io::Write impls (line writer, adapters) and every crate-local function
+    # they reach (statistics updates, the spy's send helper, ...)
+    from .qmodel import transitive_local
     crit = []
-    for cr, b in bodies:
-        if b.impl_trait == W.WRITE_TRAIT or b.short().startswith('cadence::sinks::core::SocketStats') or b.short().startswith('cadence::sinks::spy::send_metric'):
+    roots = [b for cr, b in bodies if b.impl_trait == W.WRITE_TRAIT and cr is ctx.cad]
+    seen_c = set()
+    for b in transitive_local(ctx.cad, roots):
+        if b.path not in seen_c and not b.file.endswith('/test.rs'):
+            seen_c.add(b.path)
             crit.append(b)
     badc = [b for b in crit if b.path in undischarged]
     rep.ob('D3', 'critical-sections-cannot-poison', not badc and len(crit) >= 8, badc[0].where() if badc else '',
